@@ -546,7 +546,7 @@ fn run_line(line: &str) -> String {
                 None => "OK R 0 0".to_string(),
             }
         }
-        "ping" => "OK pong".to_string(),
+        "ping" => format!("OK pong {}", ruschm::repl::__VERIF_STAMP),
         x => format!("BADCMD {}", x),
     }
 }
